@@ -11,7 +11,7 @@ Oracle on the implementation: an independent Fraction/datetime evaluation of the
 reversed quote, product along the unique path, unconverted when there is none) on every
 case, and the paired-run relation "removing the prices dated after D changes nothing".
 """
-import os, re, json, glob, shutil, tempfile, itertools, hashlib
+import os, re, json, glob, time, shutil, tempfile, itertools, hashlib
 from datetime import datetime, date, timedelta
 from fractions import Fraction
 import vflib
@@ -464,11 +464,15 @@ def bal_args(path, D, mode):
 def lrun(args):
     """One ledger process; a timeout (overloaded machine) is retried with a longer limit and
     finally reported as rc None, which the evaluation treats as 'not observed', never as a failure."""
-    r = vflib.ledger_run(args, timeout=60)
-    for t in (180, 600):
+    r = (None, "", "")
+    for t in (60, 180, 600):
+        try:
+            r = vflib.ledger_run(args, timeout=t)
+        except OSError:             # the binary is being relinked by a concurrent check (ETXTBSY / EACCES / ENOENT)
+            time.sleep(5)
+            continue
         if r[0] is not None:
             break
-        r = vflib.ledger_run(args, timeout=t)
     return r
 
 
